@@ -51,21 +51,26 @@ Max(a, b) == IF a > b THEN a ELSE b
 Obs(op, res, val) == [op |-> op, res |-> res, val |-> val]
 
 NoFrame == -1
+MetaFields == {"title", "track", "kind", "tags", "labels", "extra"}
+NoMeta == [f \in MetaFields |-> 0]
+\* update_frame: every descriptive field the caller leaves unspecified is inherited from the old version
+InheritMeta(given, old) == [f \in MetaFields |-> IF given[f] # 0 THEN given[f] ELSE old[f]]
 Frame(uri, role, parent, sup, ts, pay, emb, ci, cc, slen) ==
   [uri |-> uri, st |-> "active", role |-> role, parent |-> parent, sup |-> sup, supby |-> NoFrame,
    ts |-> ts, pay |-> pay, emb |-> emb, ci |-> ci, cc |-> cc, slen |-> slen,
-   gone |-> FALSE]      \* gone: payload extent dropped by vacuum (inactive frames only)
+   gone |-> FALSE,      \* gone: payload extent dropped by vacuum (inactive frames only)
+   meta |-> NoMeta]     \* descriptive fields (title, track, kind, tags, labels, extra) as abstract ids; 0 = not specified
 
 (* ------------------------------ log records ---------------------------- *)
 Ins(seq, uri, role, pseq, sup, reuse, ts, pay, emb, ci, cc, slen) ==
   [k |-> "ins", seq |-> seq, uri |-> uri, role |-> role, pseq |-> pseq, sup |-> sup, reuse |-> reuse,
-   ts |-> ts, pay |-> pay, emb |-> emb, ci |-> ci, cc |-> cc, slen |-> slen, target |-> NoFrame]
+   ts |-> ts, pay |-> pay, emb |-> emb, ci |-> ci, cc |-> cc, slen |-> slen, target |-> NoFrame, meta |-> NoMeta]
 Tomb(seq, target) ==
   [k |-> "tomb", seq |-> seq, uri |-> "", role |-> "doc", pseq |-> 0, sup |-> NoFrame, reuse |-> NoFrame,
-   ts |-> 0, pay |-> 0, emb |-> 0, ci |-> -1, cc |-> -1, slen |-> 0, target |-> target]
+   ts |-> 0, pay |-> 0, emb |-> 0, ci |-> -1, cc |-> -1, slen |-> 0, target |-> target, meta |-> NoMeta]
 Lex(seq) ==
   [k |-> "lex", seq |-> seq, uri |-> "", role |-> "doc", pseq |-> 0, sup |-> NoFrame, reuse |-> NoFrame,
-   ts |-> 0, pay |-> 0, emb |-> 0, ci |-> -1, cc |-> -1, slen |-> 0, target |-> NoFrame]
+   ts |-> 0, pay |-> 0, emb |-> 0, ci |-> -1, cc |-> -1, slen |-> 0, target |-> NoFrame, meta |-> NoMeta]
 
 (* ------------------------- embedded log arithmetic --------------------- *)
 RECURSIVE GrowTo(_, _)
@@ -122,7 +127,7 @@ ApplyRecs(fs, recs, s2f) ==
           src == IF r.reuse >= 0 THEN fs[r.reuse + 1] ELSE r
           pay == IF r.reuse >= 0 THEN ReusedPay(src) ELSE r.pay
           sl  == IF r.reuse >= 0 THEN src.slen ELSE r.slen
-          fr  == Frame(r.uri, r.role, par, r.sup, r.ts, pay, r.emb, r.ci, r.cc, sl)
+          fr  == [Frame(r.uri, r.role, par, r.sup, r.ts, pay, r.emb, r.ci, r.cc, sl) EXCEPT !.meta = r.meta]
           fs1 == IF r.sup >= 0 THEN MarkSup(fs, r.sup, id, {s2f[k] : k \in DOMAIN s2f}) ELSE fs
       IN ApplyRecs(Append(fs1, fr), Tail(recs), (r.seq :> id) @@ s2f)
     ELSE IF r.k = "tomb" THEN
@@ -249,20 +254,23 @@ Reject(op, why) == /\ last' = Obs(op, why, 0)
 CapacityUsed == cpe + (IF "D24_pending_ignored" \in Defects THEN 0 ELSE PendingStored(pend))
 
 \* put: `lens` = payload lengths of the log records written (parent, then chunks)
-Put(uri, role, ts, pay, emb, nchunks, cembs, slen, lens, lexLen, pe) ==
+PutM(uri, role, ts, pay, emb, nchunks, cembs, slen, lens, lexLen, pe, meta) ==
   /\ hdl = "rw"
   /\ Len(lens) = 1 + nchunks
   /\ IF slen > 0 /\ CapacityUsed + slen > Capacity
        THEN Reject("put", "CapacityExceeded")
        ELSE LET pseq == wseq + 1
-                parent == Ins(pseq, uri, role, 0, NoFrame, NoFrame, ts, pay, emb, -1,
-                              IF nchunks > 0 THEN nchunks ELSE -1, IF nchunks > 0 THEN 0 ELSE slen)
+                parent == [Ins(pseq, uri, role, 0, NoFrame, NoFrame, ts, pay, emb, -1,
+                               IF nchunks > 0 THEN nchunks ELSE -1, IF nchunks > 0 THEN 0 ELSE slen) EXCEPT !.meta = meta]
                 recs == <<parent>> \o ChunkRecs(0, nchunks, pseq, uri, ts, pay, cembs)
             IN /\ AppendRecords(recs, lens, 1 + nchunks, lexLen, pe, "put", [k |-> "put", pay |-> pay, uri |-> uri])
                /\ UNCHANGED <<hdl, snap, noAuto, ticket>>
 
+Put(uri, role, ts, pay, emb, nchunks, cembs, slen, lens, lexLen, pe) ==
+  PutM(uri, role, ts, pay, emb, nchunks, cembs, slen, lens, lexLen, pe, NoMeta)
+
 \* update_frame(f, payload?, emb?): a new frame superseding f
-Update(f, hasPay, pay, emb, nchunks, slen, lens, lexLen, pe) ==
+UpdateM(f, hasPay, pay, emb, nchunks, slen, lens, lexLen, pe, meta) ==
   /\ hdl = "rw"
   /\ Len(lens) = 1 + nchunks
   /\ IF f < 0 \/ f >= Len(frames) THEN Reject("update", "FrameNotFound")
@@ -271,14 +279,17 @@ Update(f, hasPay, pay, emb, nchunks, slen, lens, lexLen, pe) ==
      ELSE LET old == frames[f + 1]
               pseq == wseq + 1
               e    == IF emb > 0 THEN emb ELSE old.emb
-              parent == IF hasPay
+              parent0 == IF hasPay
                           THEN Ins(pseq, old.uri, "doc", 0, f, NoFrame, old.ts, pay, e, -1,
                                    IF nchunks > 0 THEN nchunks ELSE -1, IF nchunks > 0 THEN 0 ELSE slen)
                           ELSE Ins(pseq, old.uri, "doc", 0, f, f, old.ts, 0, e, -1, -1, 0)
+              parent == [parent0 EXCEPT !.meta = InheritMeta(meta, old.meta)]
               recs == <<parent>> \o (IF hasPay THEN ChunkRecs(0, nchunks, pseq, old.uri, old.ts, pay, <<>>) ELSE <<>>)
           IN /\ (~hasPay => nchunks = 0)
              /\ AppendRecords(recs, lens, 1 + nchunks, lexLen, pe, "update", [k |-> "update", pay |-> pay, uri |-> old.uri])
              /\ UNCHANGED <<hdl, snap, noAuto, ticket>>
+
+Update(f, hasPay, pay, emb, nchunks, slen, lens, lexLen, pe) == UpdateM(f, hasPay, pay, emb, nchunks, slen, lens, lexLen, pe, NoMeta)
 
 Delete(f, len, lexLen, pe) ==
   /\ hdl = "rw"
